@@ -692,7 +692,7 @@ def parse_entry(ctx, harness, model, n_templates, n_streams):
     ast_o = [split_res(x)[1] for x in common.run_lines(harness, ["ast"], olines, shards=common.NPROC)]
     ast_b = [split_res(x)[1] for x in common.run_lines(harness, ["ast"], blines, shards=common.NPROC)]
     problems, machinery = [], []
-    stats = {"sources": len(texts), "parsed": 0, "parsed_with_comment": 0, "syntax_error": 0, "unclosed": 0, "panic": 0,
+    stats = {"sources": len(texts), "templates": n_templates, "token_streams": n_streams, "parsed": 0, "parsed_with_comment": 0, "syntax_error": 0, "unclosed": 0, "panic": 0,
              "overwritten_differs": 0, "blanked_differs": 0, "with_version": 0, "with_main": 0, "with_include": 0}
     for i, t in enumerate(texts):
         if spec_o[i] != spec[i]:
@@ -853,9 +853,11 @@ def run(ctx, proofs):
     if entry_machinery:
         ctx.violation("C05 machinery: %s (%d cases)" % (entry_machinery[0]["what"], len(entry_machinery)),
                       {"broken": "C05 parse-entry variant generator", "first": entry_machinery[0]}, no_input=True)
-    if entry_stats["parsed_with_comment"] < 0.25 * entry_stats["sources"]:
-        ctx.violation("generator degenerate: only %d of %d parse-entry sources parse and contain a comment"
-                      % (entry_stats["parsed_with_comment"], entry_stats["sources"]), {"broken": "C05 parse-entry generator"}, no_input=True)
+    # (the token streams are syntax errors by construction; the complete templates are what must parse — about
+    # three quarters of them do, the rest end inside a comment or carry a string line that breaks the syntax)
+    if entry_stats["parsed_with_comment"] < 0.5 * entry_stats["templates"]:
+        ctx.violation("generator degenerate: only %d parse-entry sources parse and contain a comment (%d complete templates generated)"
+                      % (entry_stats["parsed_with_comment"], entry_stats["templates"]), {"broken": "C05 parse-entry generator"}, no_input=True)
     if not failing and not e2e_problems and not entry_problems:
         if disagreements:
             d = disagreements[0]
